@@ -13,7 +13,7 @@ def stepOf : String → Option Step
 def validVariant (step v : String) : Bool :=
   match step with
   | "gjkr" => ["epk/epk", "commit/shares", "commit/commitments", "accuse/accuse", "points/points",
-      "paccuse/paccuse", "reveal/reveal"].contains v
+      "paccuse/paccuse", "reveal/reveal", "accuse-init/accuse", "paccuse-init/paccuse"].contains v
   | "tdkg" =>
     match v.splitOn "/" with
     | [s, m] => ["epk", "symkey", "tss1", "tss2", "tss3", "final"].contains s &&
@@ -63,8 +63,12 @@ def parseCase (line : String) : Option Case :=
     else if !validVariant step variant then none
     else
       let leaderID := (firstSeat ops leader).getD 0
+      -- gjkr accusation states driven through Initiate: `allowed` = senders of the previous phase
+      let initiated := step == "gjkr" && (variant == "accuse-init/accuse" || variant == "paccuse-init/paccuse")
+      let grp : Group := ⟨gs, ia, dq⟩
+      let grp := if initiated then markInactive grp (selfs.headD 0) allowed else grp
       some { step := step, leader := leader, msgs := msgs,
-             ctx := { ops := ops, group := ⟨gs, ia, dq⟩, selfs := selfs, session := sess, aux1 := a1, aux2 := a2,
+             ctx := { ops := ops, group := grp, selfs := selfs, session := sess, aux1 := a1, aux2 := a2,
                       leaderID := leaderID, allowed := allowed, doneSigners := [] } }
   | _ => none
 
